@@ -3,7 +3,9 @@ API only (constructors, Part.add, Part.set_quarter_duration, attribute
 assignment as the importers do)."""
 
 
-def build_part(ap, with_pages=False):
+def build_part(ap, with_pages=False, late_structure=False):
+    """late_structure: add notes first, query the part (note array, time maps) as a user inspecting a half-built
+    part would, and only then add measures and time signatures - the finished part must not remember the queries"""
     import partitura.score as S
     from partitura.io.importmusicxml import DYN_DIRECTIONS
     from partitura.directions import parse_direction
@@ -14,10 +16,14 @@ def build_part(ap, with_pages=False):
     if with_pages:
         part.add(S.Page(1), 0)
         part.add(S.System(1), 0)
-    for m in ap["measures"]:
-        part.add(S.Measure(number=m["number"], name=m.get("name")), m["s"], m["e"])
-    for ts in ap["timesigs"]:
-        part.add(S.TimeSignature(ts["beats"], ts["beat_type"]), ts["t"])
+    def add_structure():
+        for m in ap["measures"]:
+            part.add(S.Measure(number=m["number"], name=m.get("name")), m["s"], m["e"])
+        for ts in ap["timesigs"]:
+            part.add(S.TimeSignature(ts["beats"], ts["beat_type"]), ts["t"])
+
+    if not late_structure:
+        add_structure()
     for ks in ap["keysigs"]:
         part.add(S.KeySignature(ks["fifths"], ks["mode"]), ks["t"])
     for c in ap["clefs"]:
@@ -60,6 +66,22 @@ def build_part(ap, with_pages=False):
             o.grace_next = x
             if isinstance(x, S.GraceNote):
                 x.grace_prev = o
+    if late_structure:
+        # make sure the barline positions already exist as time points, so that adding the structure later
+        # does not change the set of time points
+        for m in ap["measures"]:
+            part.get_or_add_point(m["s"])
+            part.get_or_add_point(m["e"])
+        import warnings
+
+        with warnings.catch_warnings():
+            warnings.simplefilter("ignore")
+            for q in (lambda: part.note_array(), lambda: part.quarter_map(0), lambda: part.beat_map(0), lambda: part.time_signature_map(0), lambda: part.number_of_staves):
+                try:
+                    q()
+                except Exception:
+                    pass
+        add_structure()
     for sl in ap.get("slurs", []):
         a, b = objs[sl["start"]], objs[sl["end"]]
         slur = S.Slur(a, b)
@@ -95,10 +117,10 @@ def build_part(ap, with_pages=False):
     return part
 
 
-def build_score(asc, with_pages=False, set_ends=False):
+def build_score(asc, with_pages=False, set_ends=False, late_structure=False):
     import partitura.score as S
 
-    parts = [build_part(ap, with_pages) for ap in asc["parts"]]
+    parts = [build_part(ap, with_pages, late_structure) for ap in asc["parts"]]
     if set_ends:
         for p in parts:
             S.set_end_times(p)
